@@ -24,7 +24,8 @@ CallerStep ==
                /\ c' = Put(e.i, [kind |-> e.kind, src |-> e.src, st |-> r.st, execs |-> IF r.st = "executed" THEN 1 ELSE 0])
        \/ /\ e.a = "final" /\ Has(e.i)                                   \* a coroutine caller got its result
           /\ IsCoro(c[e.i].kind) /\ c[e.i].st = "executed"              \* only after the body ran on the owner
-          /\ e.ret = Relayed(c[e.i].kind) /\ e.val = e.i                 \* exactly this call's value / exception
+          /\ \/ e.ret = Relayed(c[e.i].kind) /\ e.val = e.i              \* exactly this call's value / exception
+             \/ e.ret = "cancelled" /\ e.stopped = 1                      \* or, if the owner's loop was force-stopped meanwhile, its cancellation
           /\ UNCHANGED c
        \/ /\ e.a = "end"
           /\ \A i \in DOMAIN c : /\ c[i].execs <= 1
